@@ -27,6 +27,66 @@ let parse_set (s : string) : n list =
 
 exception Stop
 
+(* restart dimension: see harness/cmd/c07/sm.go *)
+let verdict_char = function VApplied -> "A" | VRejected -> "R" | VPanic -> "P"
+let rec drop n l = if n <= 0 then l else (match l with [] -> [] | _ :: t -> drop (n - 1) t)
+let n_leb a b = Model.N.leb a b
+let n_sub a b = Model.N.sub a b
+
+let run_sm id ordered body =
+  let a = ref { r_members = empty_membership; r_applied = N0; r_updates = N0 } in
+  let log = ref [] in              (* reversed *)
+  let count = ref 0 in
+  let last_update = ref N0 in      (* what the disk of B holds: index of the last update *)
+  let ss = ref None in             (* snapshot record: membership, index (int), on disk index *)
+  let ops = Str.split (Str.regexp_string " ; ") body in
+  (try
+    List.iteri (fun n op ->
+      match split_ws op with
+      | [] -> ()
+      | "u" :: _ | "c" :: _ as f ->
+        incr count;
+        let idx = n_of_int !count in
+        let e = (match f with
+          | ["c"; ty; rep; addr; ccid; init] ->
+            EConfigChange { cc_ccid = n_of_string ccid; cc_type = z_of_string ty; cc_replica = n_of_string rep;
+                            cc_addr = bytes_of_hex addr; cc_init = (init = "1") }
+          | _ -> EUpdate) in
+        log := (e, idx) :: !log;
+        let (r1, vs) = sm_run_ascii ordered true N0 !a [(e, idx)] in
+        a := r1;
+        (match e, vs with
+         | EUpdate, _ -> last_update := idx; Printf.printf "%s %d U\n" id n
+         | _, [VPanic] -> Printf.printf "%s %d P2\n" id n; raise Stop
+         | _, [v] -> Printf.printf "%s %d %s %s\n" id n (verdict_char v) (show_membership r1.r_members)
+         | _, _ -> Printf.printf "%s %d ?\n" id n)
+      | ["snap"] ->
+        let k = !count in
+        let prev = (match !ss with Some (_, i, _) -> i | None -> 0) in
+        if k = 0 || k = prev then Printf.printf "%s %d SNAP -\n" id n
+        else begin
+          ss := Some (m_get !a.r_members, k, !last_update);
+          Printf.printf "%s %d SNAP %d\n" id n k
+        end
+      | ["restart"; lag] ->
+        let lag = n_of_string lag in
+        let (ssm, ssi, ssod) = (match !ss with Some x -> x | None -> (empty_membership, 0, N0)) in
+        let op0 = n_sub !last_update lag in
+        let opn = if n_leb ssod op0 then op0 else ssod in
+        last_update := opn;
+        let entries = drop ssi (List.rev !log) in
+        let r0 = (match !ss with
+                  | Some _ -> sm_recover ssm (n_of_int ssi)
+                  | None -> { r_members = empty_membership; r_applied = N0; r_updates = N0 }) in
+        let (b, vs) = sm_run_ascii ordered true opn r0 entries in
+        (* after the replay the disk holds every update again *)
+        List.iter (fun (e, i) -> match e with EUpdate -> if n_leb !last_update i then last_update := i | _ -> ()) entries;
+        let v = String.concat "" (List.map verdict_char vs) in
+        Printf.printf "%s %d RESTART ss=%d open=%s v=%s %s\n" id n ssi (string_of_n opn)
+          (if v = "" then "-" else v) (show_membership b.r_members)
+      | _ -> Printf.printf "%s %d BADOP\n" id n) ops
+  with Stop -> ())
+
 let () =
   iter_lines (fun line ->
     match split_ws line with
@@ -41,6 +101,7 @@ let () =
       let ordered =
         (try ignore (Str.search_forward (Str.regexp_string "ordered=1") head 0); true with Not_found -> false) in
       if body = "" then Printf.printf "%s 0 EMPTY\n" id
+      else if String.length head >= 3 && String.sub head 0 3 = "sm " then run_sm id ordered body
       else begin
         let m = ref empty_membership in
         let ops = Str.split (Str.regexp_string " ; ") body in
